@@ -26,8 +26,8 @@ ASSUMPTIONS = [
     "magnitudes up to 1e3 (R) / 5e2 (P)",
 ]
 BUDGET = {
-    "quick": {"cases": 9000, "seconds": 60, "shards": 8},
-    "thorough": {"cases": 160000, "seconds": 480, "shards": 16},
+    "quick": {"cases": 40000, "seconds": 90, "shards": 8},
+    "thorough": {"cases": 800000, "seconds": 900, "shards": 16},
 }
 REQUIRED_OBS = ["value_compared", "registry_accept_checked", "registry_reject_checked", "layout:strided", "layout:readonly"]
 MIN_NONTRIVIAL = 500
